@@ -133,6 +133,9 @@ func (f *pow) readState(db *storage.CacheDB) (*powState, error) {
 			}
 			st.genesis = short(hs.Header.Hash())
 		default:
+			if foreignChainKey(key) {
+				continue // records of the sibling routers' own header stores (family evm), other chain ids
+			}
 			st.otherKey = append(st.otherKey, "key:"+hex.EncodeToString(key))
 		}
 	}
@@ -516,3 +519,17 @@ func minInt(a, b int) int {
 }
 
 var _ = ethtypes.EmptyUncleHash
+
+// foreignChainKey: a header-sync record "<kind><chain id (8 bytes LE)>..." of a chain id in 101..999 (the sibling
+// routers of family evm keep their stores under those ids; the chain under test is powChain).
+func foreignChainKey(key []byte) bool {
+	for _, kind := range []string{scom.HEADER_INDEX, scom.MAIN_CHAIN, scom.CURRENT_HEADER_HEIGHT, scom.GENESIS_HEADER, scom.CONSENSUS_PEER, scom.CONSENSUS_PEER_BLOCK_HEIGHT, scom.KEY_HEIGHTS} {
+		if strings.HasPrefix(string(key), kind) && len(key) >= len(kind)+8 {
+			id := binary.LittleEndian.Uint64(key[len(kind) : len(kind)+8])
+			if id > 100 && id < 1000 {
+				return true
+			}
+		}
+	}
+	return false
+}
